@@ -9,6 +9,8 @@ package main
 import (
 	"bytes"
 	"fmt"
+	"math"
+	"reflect"
 	"strings"
 
 	"gorgonia.org/tensor"
@@ -166,6 +168,11 @@ func genC14(tier string, r *rng, emit func(string)) {
 	if tier == "thorough" {
 		n = 6000
 	}
+	for _, dt := range dtypeNames {
+		for _, f := range serFormats {
+			emit(fmt.Sprintf("serv %s %s", dt, f))
+		}
+	}
 	lay := []string{"rm", "rm", "cm", "cmb", "T", "slice", "stepslice", "cloneview", "mat"}
 	for i := 0; i < n; i++ {
 		format := serFormats[i%len(serFormats)]
@@ -208,5 +215,118 @@ func genC14(tier string, r *rng, emit func(string)) {
 			}
 		}
 		emit(fmt.Sprintf("ser %s %s %d %s %s", dt, format, idx, mask, p))
+	}
+}
+
+// serv <dt> <fmt> : round trip of extreme and non-finite values of the element type through the
+// byte channel (the hypothesis "the channels are the identity on fields" of the C14 theorems).
+// Observation: E= D= and, per value, whether the decoded bits equal the encoded ones.
+func extremeValues(dt string) interface{} {
+	inf, nan := math.Inf(1), math.NaN()
+	switch dt {
+	case "i":
+		return []int{0, 1, -1, math.MaxInt64, math.MinInt64, 999999}
+	case "i8":
+		return []int8{0, 1, -1, math.MaxInt8, math.MinInt8}
+	case "i16":
+		return []int16{0, 1, -1, math.MaxInt16, math.MinInt16}
+	case "i32":
+		return []int32{0, 1, -1, math.MaxInt32, math.MinInt32}
+	case "i64":
+		return []int64{0, 1, -1, math.MaxInt64, math.MinInt64}
+	case "u":
+		return []uint{0, 1, math.MaxUint64, 1 << 63}
+	case "u8":
+		return []uint8{0, 1, math.MaxUint8, 128}
+	case "u16":
+		return []uint16{0, 1, math.MaxUint16, 1 << 15}
+	case "u32":
+		return []uint32{0, 1, math.MaxUint32, 1 << 31}
+	case "u64":
+		return []uint64{0, 1, math.MaxUint64, 1 << 63}
+	case "f32":
+		return []float32{0, float32(math.Copysign(0, -1)), 1.5, -1.5, math.MaxFloat32, math.SmallestNonzeroFloat32, float32(inf), float32(-inf), float32(nan), 0.1}
+	case "f64":
+		return []float64{0, math.Copysign(0, -1), 1.5, -1.5, math.MaxFloat64, math.SmallestNonzeroFloat64, inf, -inf, nan, 0.1, 1e20, 1.0 / 3.0}
+	case "c64":
+		return []complex64{0, complex(1.5, -2.5), complex(float32(inf), float32(nan)), complex(math.MaxFloat32, -math.MaxFloat32)}
+	case "c128":
+		return []complex128{0, complex(1.5, -2.5), complex(inf, nan), complex(math.MaxFloat64, -math.MaxFloat64), complex(0.1, 1.0/3.0)}
+	case "b":
+		return []bool{true, false, true}
+	case "str":
+		return []string{"", "a", "a,b", "\"q\"", "line\nbreak", "ünï", " lead"}
+	}
+	panic("dt")
+}
+
+func bitsEq(a, b interface{}) bool {
+	switch x := a.(type) {
+	case float32:
+		return math.Float32bits(x) == math.Float32bits(b.(float32)) || (x != x && b.(float32) != b.(float32))
+	case float64:
+		return math.Float64bits(x) == math.Float64bits(b.(float64)) || (x != x && b.(float64) != b.(float64))
+	case complex64:
+		y := b.(complex64)
+		return bitsEq(real(x), real(y)) && bitsEq(imag(x), imag(y))
+	case complex128:
+		y := b.(complex128)
+		return bitsEq(real(x), real(y)) && bitsEq(imag(x), imag(y))
+	}
+	switch reflect.ValueOf(a).Kind() {
+	case reflect.Int, reflect.Int64, reflect.Uint, reflect.Uint64:
+		// ReadNpy answers the platform int for 8-byte integers: compare the values
+		return fmt.Sprint(a) == fmt.Sprint(b)
+	}
+	return reflect.DeepEqual(a, b)
+}
+
+func init() {
+	execs["serv"] = func(a []string) string {
+		dt, format := a[0], a[1]
+		vals := extremeValues(dt)
+		n := reflect.ValueOf(vals).Len()
+		var src *tensor.Dense
+		if format == "csv" {
+			src = tensor.New(tensor.WithShape(1, n), tensor.WithBacking(vals))
+		} else {
+			src = tensor.New(tensor.WithShape(n), tensor.WithBacking(vals))
+		}
+		b, est := encode(format, src)
+		if est != "ok" {
+			return "E=" + est
+		}
+		d, dst := decode(format, src.Dtype(), b)
+		if dst != "ok" {
+			return "E=ok D=" + dst
+		}
+		out := make([]string, n)
+		for i := 0; i < n; i++ {
+			func() {
+				defer func() {
+					if e := recover(); e != nil {
+						out[i] = "P"
+					}
+				}()
+				var x, y interface{}
+				var e1, e2 error
+				if format == "csv" {
+					x, e1 = src.At(0, i)
+					y, e2 = d.At(0, i)
+				} else {
+					x, e1 = src.At(i)
+					y, e2 = d.At(i)
+				}
+				switch {
+				case e1 != nil || e2 != nil:
+					out[i] = "E"
+				case bitsEq(x, y):
+					out[i] = "1"
+				default:
+					out[i] = "0"
+				}
+			}()
+		}
+		return fmt.Sprintf("E=ok D=ok dt=%s n=%d eq=%s", dtName(d.Dtype()), n, strings.Join(out, ""))
 	}
 }
